@@ -32,6 +32,8 @@ func checkC20(c *Ctx) {
 	for i, q := range progs {
 		checkC20On(c, q, cfgs[i])
 	}
+	checkC20CursorChan(c, p, "")
+	checkC20CancelCache(c)
 	checkSelfDeadlock(c, "C20.self-deadlock")
 	checkChanProtocol(c, "C20.chan")
 }
